@@ -85,6 +85,22 @@ def build_jobs(prop, tier, seed, names, include_points=False, zero_cap_stream=Tr
                              "deadline_s": 100 if q else 900},
                             mode="jit" if c % 2 else "interp", timeout=400 if q else 1500, tag="almostground:%d" % c,
                             stall_s=60 if c % 2 else None))
+    # stretched stream: the small shapes mapped through a strictly increasing function with gaps around 2^8, 2^16, 2^24, 2^28
+    # (domains up to ~10^9 wide, values up to +-2^30): narrow scratch arrays, 16-bit differences, int32 sums. Judged exactly by
+    # O-support's width-independent hull (breakpoint probing / bisection).
+    from framework import gen as _gen
+
+    st = [n for n in names if n in _gen.STRETCHABLE]
+    if st:
+        for c in range(2 if q else 8):
+            jobs.append(Job("framework.props.calls", "run_calls",
+                            {"props": props, "names": st, "kind": "random", "tier": tier,
+                             "seed": seed * 60029 + c * 43 + 17, "count": (400 if q else 5000) * len(st),
+                             "opts": {"max_arity": 7 if c % 2 else 4, "width": 3 if c % 2 else 5, "base": 3,
+                                      "allow_all_zero": True, "stretch": True},
+                             "points": 0.05, "deadline_s": 100 if q else 900},
+                            mode="jit" if c % 2 else "interp", timeout=400 if q else 1500, tag="stretch:%d" % c,
+                            stall_s=60 if c % 2 else None))
     if "lexicographic_leq" in names:
         # the lexicographic automaton only shows its later states on vectors of length >= 3 with non-boolean domains
         for c in range(2 if q else 4):
@@ -155,6 +171,8 @@ def aggregate(rep, jobs, names):
         rep.maxc("max_arity_called", r.get("max_arity", 0))
         rep.count("hull_decided_by_support_oracle", r.get("hull_by_support", 0))
         rep.count("hull_oracles_cross_checked", r.get("cross_checked", 0))
+        rep.count("hull_decided_on_wide_domains", r.get("hull_wide", 0))
+        rep.maxc("max_domain_width_called", r.get("max_width", 0))
         if r.get("oracle_mismatch"):
             rep.inconclusive.append("the enumerating and the support hull oracles disagree on %d call(s), e.g. %r" % (
                 r["oracle_mismatch"], r.get("mismatch_samples")))
